@@ -1,17 +1,18 @@
 (* C14 — COSE_Key conversion round-trips every key and keeps coordinates full length.
    Statements only (copied from coq/theories by bin/mkprops); each proof is `exact <lemma>`. *)
 From Coq Require Import Ascii String ZArith List Bool Permutation.
-From GoCose Require Import Bytes Cbor CborProofs Res GoVal Obs Ecdsa EcdsaProofs Fx Headers Enc Dec Msg HashEnv Key SigVer Run TbsProofs FlowProofs DecProofs KeyProofs HdrProofs EncProofs EncCanon NoPanic Effects MoreProofs KeyCbor.
+From GoCose Require Import Bytes Cbor CborProofs Res GoVal Obs Ecdsa EcdsaProofs Fx Headers Enc Dec Msg HashEnv Key SigVer Run TbsProofs FlowProofs DecProofs KeyProofs HdrProofs EncProofs EncCanon NoPanic Effects MoreProofs KeyCbor EncDec.
 From GoCose.Gen Require Import Generated.
 Import ListNotations.
 Open Scope Z_scope.
 
-Theorem C14_ec_coord_full_width :
+(* what the constructors store: non-empty, within the field size, the same integer (the value 0 as size zero octets) *)
+Theorem C14_ec_coord_spec :
   forall v size,
-  0 <= size -> 0 <= v < 256 ^ size ->
-  len (ec_coord v size) = size /\ bytes_ok (ec_coord v size) = true /\ be_dec (ec_coord v size) = v.
-Proof. exact ec_coord_full_width. Qed.
-Print Assumptions C14_ec_coord_full_width.
+  0 < size -> 0 <= v < 256 ^ size ->
+  0 < len (ec_coord v size) <= size /\ bytes_ok (ec_coord v size) = true /\ be_dec (ec_coord v size) = v.
+Proof. exact ec_coord_spec. Qed.
+Print Assumptions C14_ec_coord_spec.
 
 Theorem C14_pad_to_spec :
   forall size b,
@@ -25,7 +26,7 @@ Theorem C14_public_key_roundtrip :
   0 <= x < 256 ^ field_size bits -> 0 <= y < 256 ^ field_size bits ->
   exists k, new_key_from_public (PubEC bits x y) = Acc k /\ key_public k = Acc (PubEC bits x y) /\
             (exists cx cy, key_x k = Some cx /\ key_y k = Some cy /\
-                           len cx = field_size bits /\ len cy = field_size bits /\ be_dec cx = x /\ be_dec cy = y).
+                           0 < len cx <= field_size bits /\ 0 < len cy <= field_size bits /\ be_dec cx = x /\ be_dec cy = y).
 Proof. exact public_key_roundtrip. Qed.
 Print Assumptions C14_public_key_roundtrip.
 
@@ -40,12 +41,13 @@ Theorem C14_go_public_key_cbor_roundtrip :
   forall crv alg bits x y,
   curve_triple crv alg bits ->
   0 <= x < 256 ^ field_size bits -> 0 <= y < 256 ^ field_size bits ->
-  exists k cx cy,
+  exists k k' px py,
     new_key_from_public (PubEC bits x y) = Acc k /\
-    key_marshal k = Acc (ser (ec2_wire crv alg cx cy None)) /\      
-    len cx = field_size bits /\ len cy = field_size bits /\        
-    be_dec cx = x /\ be_dec cy = y /\
-    key_unmarshal (ser (ec2_wire crv alg cx cy None)) = Acc k /\   
+    key_marshal k = Acc (ser (ec2_wire crv alg px py None)) /\      
+    len px = field_size bits /\ len py = field_size bits /\        
+    be_dec px = x /\ be_dec py = y /\
+    key_unmarshal (ser (ec2_wire crv alg px py None)) = Acc k' /\   
+    key_public k' = Acc (PubEC bits x y) /\                          
     key_public k = Acc (PubEC bits x y).
 Proof. exact go_public_key_cbor_roundtrip. Qed.
 Print Assumptions C14_go_public_key_cbor_roundtrip.
@@ -55,12 +57,12 @@ Theorem C14_go_private_key_cbor_roundtrip :
   forall crv alg bits x y d,
   curve_triple crv alg bits ->
   0 <= x < 256 ^ field_size bits -> 0 <= y < 256 ^ field_size bits -> 0 < d < 256 ^ field_size bits ->
-  exists k cx cy dd,
+  exists k k' px py dd,
     new_key_from_private (PrivEC bits x y d) = Acc k /\
-    key_marshal k = Acc (ser (ec2_wire crv alg cx cy (Some dd))) /\
-    len cx = field_size bits /\ len cy = field_size bits /\
-    key_unmarshal (ser (ec2_wire crv alg cx cy (Some dd))) = Acc k /\
-    key_private k = Acc (PrivEC bits x y d).
+    key_marshal k = Acc (ser (ec2_wire crv alg px py (Some dd))) /\
+    len px = field_size bits /\ len py = field_size bits /\
+    key_unmarshal (ser (ec2_wire crv alg px py (Some dd))) = Acc k' /\
+    key_private k' = Acc (PrivEC bits x y d) /\ key_private k = Acc (PrivEC bits x y d).
 Proof. exact go_private_key_cbor_roundtrip. Qed.
 Print Assumptions C14_go_private_key_cbor_roundtrip.
 
@@ -79,8 +81,9 @@ Print Assumptions C14_go_ed25519_key_cbor_roundtrip.
 (* MarshalCBOR of an EC2 key: the exact bytes, a deterministic map *)
 Theorem C14_ec2_key_marshal :
   forall crv alg bits cx cy od,
-  curve_triple crv alg bits -> len cx = field_size bits -> len cy = field_size bits ->
-  key_marshal (ec2_key crv alg cx cy od) = Acc (ser (ec2_wire crv alg cx cy od)).
+  curve_triple crv alg bits -> 0 < len cx <= field_size bits -> 0 < len cy <= field_size bits ->
+  key_marshal (ec2_key crv alg cx cy od) =
+    Acc (ser (ec2_wire crv alg (pad_to (field_size bits) cx) (pad_to (field_size bits) cy) od)).
 Proof. exact ec2_key_marshal. Qed.
 Print Assumptions C14_ec2_key_marshal.
 
@@ -95,8 +98,9 @@ Proof. exact ec2_key_unmarshal. Qed.
 Print Assumptions C14_ec2_key_unmarshal.
 
 Theorem C14_key_cbor_example :
-  new_key_from_public (PubEC 256 1 2) = Acc (ec2_key 1 (-7) (repeat 0 31 ++ [1]) (repeat 0 31 ++ [2]) None) /\
-  key_marshal (ec2_key 1 (-7) (repeat 0 31 ++ [1]) (repeat 0 31 ++ [2]) None) =
-    Acc (x "a5010203262001215820" ++ repeat 0 31 ++ [1] ++ x "225820" ++ repeat 0 31 ++ [2]).
+  new_key_from_public (PubEC 256 1 2) = Acc (ec2_key 1 (-7) [1] [2] None) /\
+  key_marshal (ec2_key 1 (-7) [1] [2] None) =
+    Acc (x "a5010203262001215820" ++ repeat 0 31 ++ [1] ++ x "225820" ++ repeat 0 31 ++ [2]) /\
+  new_key_from_public (PubEC 256 0 2) = Acc (ec2_key 1 (-7) (repeat 0 32) [2] None).
 Proof. exact key_cbor_example. Qed.
 Print Assumptions C14_key_cbor_example.
